@@ -404,18 +404,36 @@ def run(case):
             if o0["exc"] or not o0["solved"]:
                 continue
             v0 = o0["obj"]
+            sinks_ = [x for x in V if not any(a == x for (a, b) in E)]
+            sources_ = [x for x in V if not any(b == x for (a, b) in E)]
             for v in inner:
-                for which in ("additional_starts", "additional_ends"):
+                single = {}
+                # a start, an end, the same node as start AND end, and the node as start together with a natural sink declared
+                # a start as well / as end together with a natural source declared an end as well
+                for which, st, en in (("additional_starts", [v], []), ("additional_ends", [], [v]), ("start_and_end", [v], [v]),
+                                      ("start+sink_as_start", [v] + sinks_[:1], []), ("end+source_as_end", [], [v] + sources_[:1])):
                     kw = dict(base_kw)
-                    kw[which] = [v]
+                    if st:
+                        kw["additional_starts"] = list(st)
+                    if en:
+                        kw["additional_ends"] = list(en)
                     o1 = drivers.observe(dict(pin, cls=cls, kw=kw))
                     tags["starts_ends"] += 1
-                    ctx = f"{cls}({which}=[{v}])"
+                    ctx = f"{cls}(additional_starts={st}, additional_ends={en})"
                     if o1["exc"] or not o1["solved"]:
                         viol.append({"kind": "start_end_breaks_model", "msg": f"{ctx}: exc={o1['exc']} solved={o1['solved']} although the model without it is solved"})
                         continue
-                    st = [v] if which == "additional_starts" else []
-                    en = [v] if which == "additional_ends" else []
+                    single[which] = o1["obj"]
+                    best_single = min([single[w_] for w_ in ("additional_starts", "additional_ends") if w_ in single] or [v0])
+                    if which == "start_and_end" and o1["obj"] > best_single + 1e-6:
+                        viol.append({"kind": "start_end_worsens_objective", "msg": f"{ctx}: objective {o1['obj']} although a start alone / an end alone gives {best_single} (declaring both only adds routes)"})
+                        continue
+                    if which == "start+sink_as_start" and "additional_starts" in single and o1["obj"] > single["additional_starts"] + 1e-6:
+                        viol.append({"kind": "start_end_worsens_objective", "msg": f"{ctx}: objective {o1['obj']} > {single['additional_starts']} with the start {v} alone (a sink that is also a start must stay a sink)"})
+                        continue
+                    if which == "end+source_as_end" and "additional_ends" in single and o1["obj"] > single["additional_ends"] + 1e-6:
+                        viol.append({"kind": "start_end_worsens_objective", "msg": f"{ctx}: objective {o1['obj']} > {single['additional_ends']} with the end {v} alone (a source that is also an end must stay a source)"})
+                        continue
                     errs = preds.route_errors(pin, o1["sol"][rkey], cyc, st, en)
                     if errs:
                         viol.append({"kind": "start_end_invalid_route", "msg": f"{ctx}: {errs[0]}"})
